@@ -302,6 +302,16 @@ impl TransformerContext {
         self.config = config;
     }
 
+    /// Change settings part-way through a document (`<config>`): the random sequence
+    /// carries on unless the element asks for a seed.
+    pub fn update_config(&mut self, config: TransformConfig, reseed: bool) {
+        let rng = self.rng.clone();
+        self.set_config(config);
+        if !reseed {
+            self.rng = rng;
+        }
+    }
+
     pub fn set_events(&mut self, events: Vec<InputEvent>) {
         self.events = events;
     }
